@@ -19,7 +19,10 @@ class Run:
         self.res = None
         self.out = None
         if setup:
-            if split:
+            if split and fix_time_window is not None:
+                self.op = eao_call(self.pf.setup_split_optim_problem, self.prices, self.grid, interval_size=split,
+                                   fix_time_window=fix_time_window)
+            elif split:
                 self.op = eao_call(self.pf.setup_split_optim_problem, self.prices, self.grid, interval_size=split)
             elif fix_time_window is not None:
                 self.op = eao_call(self.pf.setup_optim_problem, self.prices, self.grid,
